@@ -732,21 +732,18 @@ Section Rec.
     | _ => ret E
     end.
 
-  (* for loop: one iteration per element; [n] bounds the number of iterations *)
+  (* for loop: one iteration per element of the array ([n] = its static length, also when
+     the elements are zero-sized and [aw] is empty) *)
   Fixpoint for_iterations (pat : pattern) (body : list stmt) (eb : nat) (n : nat) (aw : list Wt)
       (E : cenv) : M cenv :=
     match n with
     | O => ret E
     | S k =>
-        match aw with
-        | [] => ret E
-        | _ =>
-            do* binding := lift_res (slice aw 0 eb) in
-            do* (_, Ea) := rec_p pat binding (env_push E) in
-            do* Eb := lower_stmts body Ea in
-            do* Ec := lift_res (env_pop Eb) in
-            for_iterations pat body eb k (skipn eb aw) Ec
-        end
+        do* binding := lift_res (slice aw 0 eb) in
+        do* (_, Ea) := rec_p pat binding (env_push E) in
+        do* Eb := lower_stmts body Ea in
+        do* Ec := lift_res (env_pop Eb) in
+        for_iterations pat body eb k (skipn eb aw) Ec
     end.
 
   (* an assignment through accessors, phase 1: the index expressions in order, each extended to
@@ -1039,9 +1036,9 @@ Section Rec.
           do* E3 := lift_res (env_assign E2 x value') in
           ret ([], E3)
       | SFor pat arr body =>
-          do* (eb, _) := lift_res (array_size P (e_ty arr)) in
+          do* (eb, num_elems) := lift_res (array_size P (e_ty arr)) in
           do* (aw, E1) := rec_e arr E in
-          do* E2 := for_iterations pat body eb (if (eb =? 0)%nat then O else length aw) aw E1 in
+          do* E2 := for_iterations pat body eb num_elems aw E1 in
           ret ([], E2)
       | SJoinLoop pat join_ty a b body =>
           do* (eba, na) := lift_res (array_size P (e_ty a)) in
